@@ -13,6 +13,7 @@ Decided statically (E1 layout types + structural pairing rules):
   scalar-cells        scalar * factor is the product clipped by nan_to_num in every cell (cell-level interpreter)
   log-form            Factor.log is log(values + 1e-100): a shift, not a floor
   difference-cells    factor - factor is a - b in every cell, a subtrahend of -inf left out (cell-level interpreter)
+  exp-form            Factor.exp is exp(values); a cap on the exponent only at the largest exponent of a double
   cv-difference       CliqueVector.__sub__ is the sum with the operand negated by scalar multiplication (not Factor's log-domain `-`)
   results-writable    outside expand no read-only broadcast view reaches a returned factor (in-place forms work on derived factors)
   operators-allocate  the non in-place operators / reductions return a table allocated by the call (never an operand or a view of it)
@@ -155,6 +156,7 @@ def run(ctx):
     check_scalar_cells(ctx)
     check_difference_cells(ctx)
     check_log_form(ctx)
+    check_exp_form(ctx)
     check_axes_primitive(ctx)
     check_clique_vector(ctx)
     from .C15 import none_tests
@@ -268,6 +270,51 @@ def check_difference_cells(ctx):
                    '[%s cell - %s cell] must be %s (the difference; a subtrahend of -inf, a structural zero, is left out); the code computes %s'
                    % (la, lb, CS.show(want), CS.show(r.cell)), construct='(%s cell) - (%s cell)' % (la, lb))
     ctx.floor('factor-minus-factor cell cases', n, 6)
+
+
+def check_exp_form(ctx):
+    """Factor.exp is exp(values) entry by entry.  Its argument may be capped from above only at (or beyond) the largest exponent a double can
+    take, log(finfo(float).max) ~ 709.78 - that changes nothing but results that were +inf; a lower cap (the float32 range, ~88.7) silently
+    saturates ordinary cells: belief propagation ends in this very call, so marginals above 3.4e38 are cut off."""
+    import math
+    fi = ctx.repo.func(FACTOR, 'Factor.exp')
+    ctx.analysed(fi)
+    exps = [c for c in calls_in(fi.node) if U(c.func) in ('np.exp', 'numpy.exp') and c.args]
+    if not exps:
+        raise AnalysisError('Factor.exp: no np.exp call')
+    local = {a.targets[0].id: a.value for a in ast.walk(fi.node) if isinstance(a, ast.Assign) and len(a.targets) == 1 and isinstance(a.targets[0], ast.Name)}
+    consts = {a.targets[0].id: a.value for a in fi.module.tree.body if isinstance(a, ast.Assign) and len(a.targets) == 1 and isinstance(a.targets[0], ast.Name)}
+    n = 0
+    for c in exps:
+        a = c.args[0]
+        if isinstance(a, ast.Name) and a.id in local:
+            a = local[a.id]
+        t = U(a).replace(' ', '')
+        n += 1
+        if t == 'self.values':
+            ctx.ob('exp-form', fi, c, True, 'exp of the stored values, entry by entry', construct='operand of the exponential')
+            continue
+        m = re.fullmatch(r'np\.minimum\(self\.values,(.+)\)|np\.minimum\((.+),self\.values\)|np\.clip\(self\.values,None,(.+)\)|self\.values\.clip\(max=(.+)\)', t)
+        if not m:
+            raise AnalysisError('Factor.exp: operand `%s` of the exponential is in no recognised form' % U(a)[:60])
+        cap = next(g for g in m.groups() if g)
+        if re.fullmatch(r'\w+', cap) and cap in consts:
+            cap = U(consts[cap]).replace(' ', '')
+        full = cap in ('np.log(np.finfo(float).max)', 'np.log(np.finfo(np.float64).max)', 'np.log(sys.float_info.max)', 'math.log(sys.float_info.max)',
+                       'np.log(np.finfo(np.double).max)', 'np.log(np.finfo("float64").max)', "np.log(np.finfo('float64').max)")
+        low = re.search(r'float32|float16|np\.single|np\.half', cap) is not None
+        try:
+            val = float(ast.literal_eval(cap))
+            full = full or val >= math.log(1.7976931348623157e308)
+            low = low or val < math.log(1.7976931348623157e308)
+        except Exception:
+            pass
+        if not full and not low:
+            raise AnalysisError('Factor.exp: the exponent is capped at `%s`, whose value this analysis does not know' % cap[:60])
+        ctx.ob('exp-form', fi, c, full, 'exp(values), entry by entry; the exponent is capped at `%s`%s' % (cap[:60], ': the largest exponent of a double - only results that '
+               'were +inf change' if full else ' - BELOW the range of a double (log(float32 max) ~ 88.7): ordinary cells saturate; belief propagation ends in this call, so '
+               'marginals beyond that are cut off and no longer sum to the total'), construct='operand of the exponential')
+    ctx.floor('exponentials in Factor.exp', n, 1)
 
 
 def check_log_form(ctx):
